@@ -60,6 +60,7 @@ func encodeFunction(w *World, fn *ssa.Function, dropped map[string]bool) (e *Enc
 	// un-havocked paths would lose its entry value)
 	e.get(st, "ghost:sends", Arr(RefS, BV64))
 	e.get(st, "ghost:metric", Arr(RefS, BV64))
+	e.get(st, "ghost:metricvec", Arr(RefS, Arr(RefS, BV64)))
 	e.get(st, "ghost:hash#st", Arr(RefS, IntS))
 	e.entry = st
 	e.cur = st
@@ -175,12 +176,15 @@ func isGlobalSym(name string) bool {
 
 // localSyms returns the non-heap symbols of a term (memoised per encoder).
 func (e *Encoder) localSyms(t *Term) map[*Term]bool {
+	e.symMu.Lock()
 	if e.symMemo == nil {
 		e.symMemo = map[*Term]map[*Term]bool{}
 	}
 	if r, ok := e.symMemo[t]; ok {
+		e.symMu.Unlock()
 		return r
 	}
+	e.symMu.Unlock()
 	r := map[*Term]bool{}
 	seen := map[*Term]bool{}
 	var rec func(x *Term)
@@ -204,7 +208,9 @@ func (e *Encoder) localSyms(t *Term) map[*Term]bool {
 		}
 	}
 	rec(t)
+	e.symMu.Lock()
 	e.symMemo[t] = r
+	e.symMu.Unlock()
 	return r
 }
 
@@ -212,8 +218,19 @@ func (e *Encoder) localSyms(t *Term) map[*Term]bool {
 // influence of the goal (sharing non-heap symbols, transitively). Dropping
 // assumptions is sound for an unsat answer.
 func (e *Encoder) relevantQuery(o *Obligation) (string, bool) {
+	return e.relevantQueryWith(o, nil)
+}
+
+// relevantQueryWith: as relevantQuery, with additional assumptions (case-split literals) that are
+// always kept and also seed the cone.
+func (e *Encoder) relevantQueryWith(o *Obligation, extra []*Term) (string, bool) {
 	c := e.c
 	S := map[*Term]bool{}
+	for _, x := range extra {
+		for k := range e.localSyms(x) {
+			S[k] = true
+		}
+	}
 	for k := range e.localSyms(o.Guard) {
 		S[k] = true
 	}
@@ -256,6 +273,7 @@ func (e *Encoder) relevantQuery(o *Obligation) (string, bool) {
 			as = append(as, e.assumptions[i])
 		}
 	}
+	as = append(as, extra...)
 	as = append(as, o.Guard, c.Not(o.Goal))
 	return c.Script(as, nil, ""), true
 }
@@ -404,6 +422,17 @@ func solveAll(e *Encoder, obls []*Obligation, timeout time.Duration, all bool) [
 						as = append(as, or.O.Extra...)
 						as = append(as, extra...)
 						as = append(as, or.O.Guard, e.c.Not(or.O.Goal))
+						if rs, ok := e.relevantQueryWith(or.O, extra); ok {
+							// cone of influence first: dropping assumptions is sound for an unsat answer
+							t1 := timeout / 3
+							if t1 < 2*time.Second {
+								t1 = 2 * time.Second
+							}
+							if r := Solve(fmt.Sprintf("%s_case%d_rel", or.O.ID, m), rs, t1, false); r.Status == "unsat" {
+								res[m] = r
+								return
+							}
+						}
 						res[m] = Solve(fmt.Sprintf("%s_case%d", or.O.ID, m), e.c.Script(as, nil, ""), timeout, all)
 					}(m)
 				}
@@ -530,6 +559,26 @@ func (e *Encoder) seedFromInit(fn *ssa.Function, st *State) *State {
 		if g, ok := sp.Members["init$guard"].(*ssa.Global); ok {
 			a := e.globalAddr(g)
 			e.store(st, a, &SVal{K: KScalar, Typ: types.Typ[types.Bool], T: c.False()})
+		}
+		// package-level variables start out zeroed (fields a composite literal omits stay zero)
+		var names []string
+		for n := range sp.Members {
+			names = append(names, n)
+		}
+		sort.Strings(names)
+		for _, n := range names {
+			g, ok := sp.Members[n].(*ssa.Global)
+			if !ok || n == "init$guard" {
+				continue
+			}
+			et := g.Type().(*types.Pointer).Elem()
+			if at, isArr := et.Underlying().(*types.Array); isArr && at.Len() > 64 {
+				continue
+			}
+			func() {
+				defer func() { recover() }() // types outside the modelled subset keep unknown initial contents
+				e.store(st, e.globalAddr(g), e.zero(et))
+			}()
 		}
 	}
 	e.pure++
